@@ -18,12 +18,15 @@ TRUSTED_BASE = ["checks/c12.py + vt/geom.py (build objects on dyadic units, enco
 ASSUMPTIONS = ["dyadic units make every float operation of the implementation exact, so lattice verdicts are exact",
                "intervals are given with start <= stop"]
 
-_REC = None
-def _recording():
-    global _REC
-    if _REC is None:
-        _REC = data.Recording(path="a.wav", duration=100000.0, channels=1, samplerate=8000)
-    return _REC
+_RECS = {}
+def _recording(te=1.0):
+    """the clip's recording; is_in_clip is stated on clip and geometry times only, so a time-expanded recording (te = 10,
+    0.5) must not change any answer"""
+    if te not in _RECS:
+        _RECS[te] = data.Recording(path="a.wav", duration=100000.0, channels=1, samplerate=8000, time_expansion=te)
+    return _RECS[te]
+
+_TES = [1.0, 10.0, 0.5]
 
 def _thr(case, unit):
     kw = {}
@@ -67,7 +70,8 @@ def execute(case):
             rs.append(outcome(fn, g2, g1, **kw))
         elif k == "clip":
             g = _geom(case["g"], tu, case.get("prov", "fresh"))
-            clip = data.Clip(recording=_recording(), start_time=case["clip"][0] * tu, end_time=case["clip"][1] * tu)
+            # the recording of the clip is time-expanded in two of the three runs (factor by unit): the answer may not depend on it
+            clip = data.Clip(recording=_recording(_TES[TIME_UNITS.index(tu) % 3]), start_time=case["clip"][0] * tu, end_time=case["clip"][1] * tu)
             o = outcome(geometry.is_in_clip, g, clip, case["m"] * tu) if case["m"] != 0 else outcome(geometry.is_in_clip, g, clip)
             r.append(o)
             rs.append(o)
